@@ -657,31 +657,50 @@ func Run(cfg vh.Config) (*vh.Result, error) {
 		for _, c := range fixedRunCases() {
 			add(c)
 		}
-		for i := 0; i < cfg.Pick(150, 3000); i++ {
+		for i := 0; i < cfg.Pick(120, 3000); i++ {
 			add(genSum(rng))
 		}
-		for i := 0; i < cfg.Pick(420, 14000); i++ {
+		for i := 0; i < cfg.Pick(360, 14000); i++ {
 			add(genRun(rng, true))
 		}
-		for i := 0; i < cfg.Pick(80, 3000); i++ {
+		for i := 0; i < cfg.Pick(70, 3000); i++ {
 			add(genRun(rng, false))
 		}
 	}
 
-	const per = 250
-	for i, k := 0, 0; i < len(terms); i, k = i+per, k+1 {
-		j := i + per
-		if j > len(terms) {
-			j = len(terms)
+	// shards: direct cases are tiny (1000 per shard); run cases carry a whole rule set and trace (60 per shard)
+	var dTerms, rTerms []string
+	var dCases, rCases []any
+	for i, c := range cases {
+		if c.(*Case).Kind == "run" {
+			rTerms, rCases = append(rTerms, terms[i]), append(rCases, c)
+		} else {
+			dTerms, dCases = append(dTerms, terms[i]), append(dCases, c)
 		}
-		info, err := vh.WriteShard(cfg.OutDir, vh.Shard{
-			Name: fmt.Sprintf("C09_%d", k), Imports: "From Verif Require Import Base Transform Setvar CorrC09.",
-			CaseType: "CorrC09.case", MismatchF: "CorrC09.mismatches", Terms: terms[i:j], Cases: cases[i:j],
-		})
-		if err != nil {
-			return nil, err
+	}
+	k := 0
+	emit := func(ts []string, cs []any, per int) error {
+		for i := 0; i < len(ts); i, k = i+per, k+1 {
+			j := i + per
+			if j > len(ts) {
+				j = len(ts)
+			}
+			info, err := vh.WriteShard(cfg.OutDir, vh.Shard{
+				Name: fmt.Sprintf("C09_%d", k), Imports: "From Verif Require Import Base Transform Setvar CorrC09.",
+				CaseType: "CorrC09.case", MismatchF: "CorrC09.mismatches", Terms: ts[i:j], Cases: cs[i:j],
+			})
+			if err != nil {
+				return err
+			}
+			res.Shards = append(res.Shards, info)
 		}
-		res.Shards = append(res.Shards, info)
+		return nil
+	}
+	if err := emit(dTerms, dCases, 1000); err != nil {
+		return nil, err
+	}
+	if err := emit(rTerms, rCases, cfg.Pick(60, 400)); err != nil {
+		return nil, err
 	}
 	for i := 0; i < len(cases) && len(res.Samples) < 6; i += 1 + len(cases)/6 {
 		res.Samples = append(res.Samples, cases[i])
